@@ -79,8 +79,63 @@ def run_case(cs, ctx):
         argv = ['-f', path, '-na', str(spec['na'])] + (['-twopl'] if twopl else [])
         case['file'] = text
         ctx.cnt('files_loaded')
+        faulty = variant == 1 and cs % 25 == 6
+        if faulty:
+            # failure at a particular point: the first attempt to read the file breaks after k lines (OSError);
+            # if the constructor nevertheless returns, the Model must still be the one the file denotes
+            import builtins
+            import sys as _sys
+            import matchingproblems.solver as _ms
+            holder = None
+            for nm, mod_ in list(_sys.modules.items()):
+                if nm.startswith('matchingproblems.solver') and hasattr(mod_, 'import_model') and hasattr(mod_, '_import_from_file'):
+                    holder = mod_
+            state = {'done': False, 'k': rng.randint(1, max(1, spec['ns'] + spec['np']))}
+
+            class _Faulty:
+                def __init__(self, fh):
+                    self.fh, self.n = fh, 0
+
+                def __enter__(self):
+                    return self
+
+                def __exit__(self, *a):
+                    self.fh.close()
+                    return False
+
+                def __iter__(self):
+                    for line in self.fh:
+                        self.n += 1
+                        if self.n > state['k']:
+                            raise OSError(5, 'injected read error')
+                        yield line
+
+                def __getattr__(self, name):
+                    return getattr(self.fh, name)
+
+            def opener(p, *a, **k):
+                fh = builtins.open(p, *a, **k)
+                if not state['done'] and str(p) == path:
+                    state['done'] = True
+                    return _Faulty(fh)
+                return fh
+            if holder is not None:
+                holder.open = opener
+                ctx.cnt('reads_with_an_injected_io_error')
         try:
-            s = Solver(argv)
+            try:
+                s = Solver(argv)
+            finally:
+                if faulty and holder is not None and 'open' in vars(holder):
+                    del holder.open
+        except OSError as e:
+            if faulty:
+                ctx.cnt('unobservable_read_error_propagated')
+                continue
+            ctx.finding(en.F('C10', 'loads', 'Solver(%s) raised %s: %s on a file of the documented grammar' % (
+                argv[2:], type(e).__name__, e), exc=en.exc_info(e)), case)
+            lc.harvest_contracts(ctx, case)
+            return
         except BaseException as e:
             ctx.finding(en.F('C10', 'loads', 'Solver(%s) raised %s: %s on a file of the documented grammar' % (
                 argv[2:], type(e).__name__, e), exc=en.exc_info(e) if isinstance(e, Exception) else None), case)
